@@ -1,4 +1,6 @@
-From SV Require Import Alloc.AllocStep Store.Raw Store.Masked Store.DeadHandle World.WorldSpec World.Micro Props.C03.
+From SV Require Import Alloc.AllocStep Store.Raw Store.Masked Store.DeadHandle World.Env World.Join World.JoinProps
+  World.WorldSpec World.Micro.
+From SV Require Import Props.C03.
 Check (C03_dead_handle_is_absent : forall ms av e c, av_alive av e = false ->
   st_get ms av e c = (None, c) /\
   st_contains ms av e = false /\
@@ -13,3 +15,10 @@ Check (C03_stale_forever : forall tr tr' e,
   saccept s_init (tr ++ tr') 0 = None -> In e (all_returned tr) ->
   l_is_alive (s_life (fst (srun s_init tr))) e = false ->
   av_alive (l_view (s_life (fst (srun s_init (tr ++ tr'))))) e = false).
+Check (C03_lending_lookup_of_a_dead_handle : forall e av eids hs ms h ent,
+  pv_get hs (N.of_nat h) = Some ent -> av_alive av ent = false ->
+  env_join e av eids hs (JLendGet h) ms = (e, JOne None) \/ env_join e av eids hs (JLendGet h) ms = (e, JSkipped) \/
+  env_join e av eids hs (JLendGet h) ms = (env_fail e, JSkipped)).
+Check (C03_restricted_lookup_of_a_dead_handle : forall av hs sid mutably l e n h ent,
+  nth_error l n = Some h -> pv_get hs (N.of_nat h) = Some ent -> av_alive av ent = false ->
+  nth_error (snd (others_lookup av hs sid mutably l e)) n = Some None).
